@@ -87,6 +87,8 @@ impl LocustDB {
                 )))
             }
         };
+        #[cfg(locustdb_verif)]
+        crate::verif::sync("query:snapshotted");
 
         let query_task = QueryTask::new(
             query,
@@ -210,6 +212,11 @@ impl LocustDB {
 
     pub fn evict_cache(&self) -> usize {
         self.inner_locustdb.evict_cache()
+    }
+
+    #[cfg(locustdb_verif)]
+    pub fn verif_state(&self) -> serde_json::Value {
+        self.inner_locustdb.verif_state()
     }
 }
 
